@@ -89,6 +89,12 @@ def loader_case(c):
         dpl = DPDataLoader.from_data_loader(dl, generator=torch.Generator().manual_seed(c['seed']))
     out = {'L': L, 'len_dp': len(dpl), 'rate': dpl.sample_rate, 'epochs': []}
     first = ds[0]
+    if c.get('abandon'):
+        # an epoch abandoned after a few batches (early stopping, max_steps, an exception): the next epoch must be a full one
+        it = iter(dpl)
+        for _ in range(min(c['abandon'], L)):
+            next(it)
+        del it
     for ep in range(2):
         nb, empties, bad = 0, 0, None
         for batch in dpl:
